@@ -195,10 +195,19 @@ static bool rfcParse(const BA &in, std::map<BA, BA> &out, std::map<BA, bool> *qu
     }
     return true;
 }
-static BA rfcDigest(const BA &method, const BA &user, const BA &realm, const BA &pass, const BA &nonce, const BA &cnonce,
-                    const BA &nc, const BA &digestUri)
+// RFC 2831 2.1.2.1 and the sample code of section 8: with charset=utf-8, a user name / realm / password all of whose
+// characters are in ISO 8859-1 is converted to ISO 8859-1 before being hashed (each string on its own)
+static BA rfc2831Enc(const BA &utf8)
 {
-    const BA a1 = md5(user + ":" + realm + ":" + pass) + ":" + nonce + ":" + cnonce;
+    const QString t = QString::fromUtf8(utf8);
+    for (QChar c : t) if (c.unicode() > 0xFF) return utf8;
+    return t.toLatin1();
+}
+static BA rfcDigest(const BA &method, const BA &user, const BA &realm, const BA &pass, const BA &nonce, const BA &cnonce,
+                    const BA &nc, const BA &digestUri, bool iso88591 = true)
+{
+    const BA inner = iso88591 ? rfc2831Enc(user) + ":" + rfc2831Enc(realm) + ":" + rfc2831Enc(pass) : user + ":" + realm + ":" + pass;
+    const BA a1 = md5(inner) + ":" + nonce + ":" + cnonce;
     const BA a2 = method + ":" + digestUri;
     return md5(md5(a1).toHex() + ":" + nonce + ":" + nc + ":" + cnonce + ":auth:" + md5(a2).toHex()).toHex();
 }
@@ -243,7 +252,7 @@ struct Client {
     {
         printf("I %s | respond %s\n", history.c_str(), printable(ch).c_str());
         auto r = c->respond(ch);
-        corr("r " + hx(ch), r ? "some " + hx(*r) : S("none"));
+        corr("r " + hx(ch), (r ? "some " + hx(*r) : S("none")) + (c->serverVerified() ? " v=1" : " v=0"));
         history += " | r(" + printable(ch) + ")" + (r ? "=some" : "=none");
         stat("respond_calls");
         return r;
@@ -320,6 +329,10 @@ static void scramForeignNonce(const ScramCase &k, Rng &rng)
         expectRefused(cl, refServerFirst(n, k.salt, k.iters), "C06:scram-foreign-nonce-accepted");
     }
     expectRefused(cl, "s=" + k.salt.toBase64() + ",i=" + BA::number(k.iters), "C06:scram-foreign-nonce-accepted");   // no r= at all
+    if (!k.snonce.startsWith(cn)) {   // extra attributes before a foreign r=, channel-binding-looking attributes
+        expectRefused(cl, "x=1,y=2," + refServerFirst(k.snonce, k.salt, k.iters), "C06:scram-foreign-nonce-accepted");
+        expectRefused(cl, "p=tls-unique,c=biws," + refServerFirst(k.snonce, k.salt, k.iters) + ",r", "C06:scram-foreign-nonce-accepted");
+    }
     if (!k.snonce.startsWith(cn))   // the last r= counts
         expectRefused(cl, "r=" + k.snonce + ",r=" + cn + k.snonce + ",r=" + k.snonce + ",s=" + k.salt.toBase64() + ",i=1", "C06:scram-foreign-nonce-accepted");
     // the refusals must not have consumed the step: the honest message is still answered
@@ -366,7 +379,12 @@ static void scramBadParams(const ScramCase &k)
     {
         Client c5(k.cfg);   // fields in another order, unknown attributes, an empty piece
         scramFirst(c5);
-        c5.respond("i=" + BA::number(k.iters) + ",,x,m=ext,s=" + s64 + ",r=" + nonce);
+        c5.respond("i=" + BA::number(k.iters) + ",,x,y=z,p=tls-unique,s=" + s64 + ",r=" + nonce);
+    }
+    {
+        Client c6(k.cfg);   // RFC 5802 5.1: the reserved attribute m= MUST cause authentication failure
+        scramFirst(c6);
+        expectRefused(c6, "m=ext," + refServerFirst(nonce, k.salt, k.iters), "C06:scram-reserved-m-attribute-accepted");
     }
 }
 
@@ -437,7 +455,12 @@ static bool digestCheckResponse(Client &cl, const DigestCase &k, const BA &resp,
     if (get("qop") != "auth") { why = "qop"; return false; }
     if (get("digest-uri") != uri) { why = "digest-uri"; return false; }
     if (get("charset") != "utf-8") { why = "charset"; return false; }
-    if (get("response") != rfcDigest("AUTHENTICATE", k.cfg.user, k.realm, pass, k.nonce, k.cfg.cnonce, "00000001", uri)) { why = "response-value"; return false; }
+    if (get("response") != rfcDigest("AUTHENTICATE", k.cfg.user, k.realm, pass, k.nonce, k.cfg.cnonce, "00000001", uri)) {
+        // hashed over the UTF-8 bytes although the strings are ISO 8859-1 representable?
+        const bool utf8Variant = get("response") == rfcDigest("AUTHENTICATE", k.cfg.user, k.realm, pass, k.nonce, k.cfg.cnonce, "00000001", uri, false);
+        why = utf8Variant ? "response-value-utf8-not-iso8859-1" : "response-value";
+        return false;
+    }
     return true;
 }
 
@@ -454,14 +477,19 @@ static void digestHonest(const DigestCase &k, const BA &qop)
         return;
     }
     S why;
+    bool iso = true;   // which reading of the hash input the rest of the exchange is played with
     if (!digestCheckResponse(cl, k, *resp, k.cfg.pass, why, true)) {
-        oracleFail(trailing ? "C06:digest-md5-trailing-backslash" : "C06:digest-response-not-rfc2831", cl.history + " | " + why + " | response=" + printable(*resp));
-        return;
-    }
-    oraclePass()++;
+        if (why == "response-value-utf8-not-iso8859-1") {
+            oracleFail("C06:digest-md5-latin1-hashed-as-utf8", cl.history + " | response=" + printable(*resp));
+            iso = false;   // go on with the client's own reading so that the rspauth step is still exercised
+        } else {
+            oracleFail(trailing ? "C06:digest-md5-trailing-backslash" : "C06:digest-response-not-rfc2831", cl.history + " | " + why + " | response=" + printable(*resp));
+            return;
+        }
+    } else oraclePass()++;
     if (digestCheckResponse(cl, k, *resp, k.cfg.pass + "x", why, false)) oracleFail("C06:digest-response-accepted-under-other-password", cl.history); else oraclePass()++;
-    const BA rspauth = rfcDigest("", k.cfg.user, k.realm, k.cfg.pass, k.nonce, k.cfg.cnonce, "00000001", uri);
-    const BA bad1 = rfcDigest("", k.cfg.user, k.realm, k.cfg.pass + "x", k.nonce, k.cfg.cnonce, "00000001", uri);
+    const BA rspauth = rfcDigest("", k.cfg.user, k.realm, k.cfg.pass, k.nonce, k.cfg.cnonce, "00000001", uri, iso);
+    const BA bad1 = rfcDigest("", k.cfg.user, k.realm, k.cfg.pass + "x", k.nonce, k.cfg.cnonce, "00000001", uri, iso);
     BA bad2 = rspauth; bad2[5] = bad2[5] == '0' ? '1' : '0';
     expectRefused(cl, "rspauth=" + bad1, "C06:digest-wrong-rspauth-accepted");
     expectRefused(cl, "rspauth=" + bad2, "C06:digest-wrong-rspauth-accepted");
@@ -720,7 +748,7 @@ struct Script {
     BA fakeFinal() const { return "v=" + BA(20, 'x').toBase64(); }
     BA rspauth(bool wrong) const
     {
-        return "rspauth=" + rfcDigest("", m.k.c.user, realm, m.k.c.pass + (wrong ? "x" : ""), dnonce, m.k.c.cnonce, "00000001", "xmpp/" + m.k.c.host);
+        return "rspauth=" + rfcDigest("", m.k.c.user, realm, m.k.c.pass + (wrong ? "x" : ""), dnonce, m.k.c.cnonce, "00000001", "xmpp/" + m.k.c.host, false);
     }
     // element alphabet; returns false when the symbol does not apply to the mechanism
     void play(const S &sym)
@@ -739,7 +767,7 @@ struct Script {
                 auto fin = serverFinal();
                 h = m.challenge(fin ? *fin : fakeFinal());
                 if (fin && h == 'A') proved = true;
-            } else h = m.challenge(rspauth(false));
+            } else { h = m.challenge(rspauth(false)); if (isDigest() && h == 'A' && !digestResp.isEmpty()) proved = true; }
         } else if (sym == "C2w") {
             h = m.challenge(isScram() ? fakeFinal() : rspauth(true));
         } else if (sym == "Ce") {
@@ -751,6 +779,13 @@ struct Script {
             bool pendingBefore = m.result == "-";
             h = m.success(fin ? *fin : (isDigest() ? rspauth(false) : fakeFinal()));
             if (fin && pendingBefore) proved = true;      // the proof was in the transcript (success data)
+            if (isDigest() && pendingBefore && !digestResp.isEmpty()) proved = true;
+        } else if (sym == "S1") {   // success carrying what should have been the first challenge (seeded change C06_a2)
+            BA d;
+            if (isScram()) { d = refServerFirst(m.k.c.cnonce + snonce, salt, iters); if (serverFirst.isEmpty()) serverFirst = d; }
+            else if (isDigest()) d = (realm.isEmpty() ? BA() : "realm=" + rfcQuote(realm) + ",") + "nonce=" + rfcQuote(dnonce) + ",qop=\"auth\",charset=utf-8,algorithm=md5-sess";
+            else d = "abc";
+            h = m.success(d);
         } else if (sym == "Sw") {
             h = m.success(isDigest() ? rspauth(true) : fakeFinal());
         } else if (sym == "F") h = m.failure(false);
@@ -780,6 +815,12 @@ static void runMgrSequence(const MgrCfg &cfg, const std::vector<S> &syms, Rng &r
             if (sc.isScram()) {
                 if (m.result == "success" && !sc.proved)
                     oracleFail(cfg.sasl2 ? "C06:early-success-sasl2" : "C06:early-success-sasl", m.history);
+                else oraclePass()++;
+            }
+            // ... and a DIGEST-MD5 login only if the correct rspauth was presented (RFC 2831 2.1.3)
+            if (sc.isDigest()) {
+                if (m.result == "success" && !sc.proved)
+                    oracleFail(cfg.sasl2 ? "C06:digest-success-without-rspauth-sasl2" : "C06:digest-success-without-rspauth-sasl", m.history);
                 else oraclePass()++;
             }
         }
@@ -841,6 +882,20 @@ int main(int argc, char **argv)
         digestHonest(d3, "auth");
         DigestCase d4 = d; d4.realm = "a b\\"; d4.nonce = "n\\";
         digestHonest(d4, "auth");
+        DigestCase d5 = d; d5.cfg.user = "ren\xc3\xa9"; d5.cfg.pass = "p\xc3\xa4ssw\xc3\xb6rd";   // ISO 8859-1 representable, non-ASCII
+        digestHonest(d5, "auth");
+        DigestCase d6 = d; d6.cfg.user = "ren\xc3\xa9"; d6.cfg.pass = "\xd0\xbf\xd0\xb0\xd1\x80\xd0\xbe\xd0\xbb\xd1\x8c";   // password beyond ISO 8859-1: stays UTF-8, user does not
+        digestHonest(d6, "auth");
+        for (int sasl2 = 0; sasl2 < 2; sasl2++) {
+            MgrCfg mk { sasl2 == 1, { "SCRAM-SHA-1", "user", "pencil", "fyko+d2lbbFgONRv9qkxdawL", "example.org", "xmpp" } };
+            runMgrSequence(mk, { "S" }, rng);          // witness of the early-success finding (fixed in 0b21ae7)
+            runMgrSequence(mk, { "S1" }, rng);         // seeded change C06_a2: success carrying a server-first message
+            runMgrSequence(mk, { "C1", "Sw" }, rng);
+            MgrCfg md { sasl2 == 1, { "DIGEST-MD5", "qxmpp1", "qxmpp123", "AMzVG8Oibf+sVUCPPlWLR8lZQvbbJtJB9vJd+u3c6dw=", "jabber.ru", "xmpp" } };
+            runMgrSequence(md, { "C1", "S" }, rng);    // DIGEST-MD5: success right after the response, no rspauth
+            runMgrSequence(md, { "C1", "Sw" }, rng);   // ... or with a wrong rspauth as success data
+            runMgrSequence(md, { "C1", "Sv" }, rng);
+        }
         QMap<BA, BA> m1; m1["username"] = "a b\\";
         roundTrip(m1);
         QMap<BA, BA> m2; m2["realm"] = "x\\"; m2["username"] = "say \"hi\"";
@@ -963,7 +1018,7 @@ int main(int argc, char **argv)
 
     // ---------------- the managers
     {
-        const std::vector<S> full = { "C1", "C1n", "C2", "C2w", "Ce", "S", "Sv", "Sw", "F", "Fa", "K", "X" };
+        const std::vector<S> full = { "C1", "C1n", "C2", "C2w", "Ce", "S", "Sv", "Sw", "S1", "F", "Fa", "K", "X" };
         const std::vector<S> simple = { "C1", "Ce", "S", "Sv", "F", "Fa", "K", "X" };
         std::vector<S> cur;
         for (int sasl2 = 0; sasl2 < 2; sasl2++) {
@@ -984,7 +1039,7 @@ int main(int argc, char **argv)
             enumerateMgr(kh, simple, 3, cur, rng);
         }
         stat("manager_exhaustive_depth", g_thorough ? 4 : 3);
-        const std::vector<S> wide = { "C1", "C1", "C1n", "C2", "C2", "C2w", "Ce", "S", "Sv", "Sw", "F", "Fa", "K", "K", "X", "X1", "X2", "X3" };
+        const std::vector<S> wide = { "C1", "C1", "C1n", "C2", "C2", "C2w", "Ce", "S", "Sv", "Sw", "S1", "F", "Fa", "K", "K", "X", "X1", "X2", "X3" };
         const int nRand = g_thorough ? 25000 : 3000;
         for (int i = 0; i < nRand; i++) {
             static const char *MECHS[] = { "SCRAM-SHA-1", "SCRAM-SHA-256", "SCRAM-SHA-512", "SCRAM-SHA3-512", "DIGEST-MD5", "PLAIN", "HT-SHA-512-NONE", "HT-SHA3-256-NONE" };
